@@ -411,7 +411,7 @@ func scripts(s string) [][]string {
 	return out
 }
 
-var netFaults = []string{"drop-req", "drop-reply", "dup", "sibling-abort"}
+var netFaults = []string{"drop-req", "drop-reply", "timeout", "dup", "sibling-abort"}
 
 func faultsFor(transport string, budget int) []string {
 	if budget == 0 {
@@ -492,7 +492,7 @@ func TestCheck(t *testing.T) {
 			"node operations are issued in the order MPCalContext.Run issues them (Read/Write, PreCommit, then Commit, or Abort after any refusal; Abort after a successful PreCommit models a sibling resource that refused); a section is retried at most max_attempts times, after which the node stops (a slow node)",
 			"virtual time: the scheduler advances the clock by 1 microsecond per step so that SenderTime strictly increases per sender as a nanosecond wall clock does; back-off and 1 s retry sleeps elapse only when the scheduler chooses the move 'time'; the relative order of two concurrently pending timers is the one the code's own back-off values give (not enumerated), and state-key pruning ignores absolute time",
 			"release is judged only for a pre-commit whose version has not been installed anywhere (the lock really blocks that version); a replica that missed a Commit and stays locked for an already decided version is counted (stale_accept_decided_version), not judged",
-			"lost message = the sender's Send returns an error (what RPCReplicaHandle does on timeout or connection error), either before or after the receiver processed the request; loss and duplication are not applied to the in-process transport (a function call cannot be lost)",
+			"lost message = the sender's Send returns an error (what RPCReplicaHandle does on timeout or connection error), either without the receiver ever seeing the request (drop-req), after it processed it (drop-reply), or before it processes it later (timeout); loss, timeout and duplication are not applied to the in-process transport (a function call cannot be lost)",
 		}
 		dir := os.Getenv("VERIF_SCRATCH")
 		if dir == "" {
